@@ -126,7 +126,7 @@ def name_programs(thorough):
         up = to_upper_snake(n)
         if up != "UNKNOWN":
             progs.append(Program("nm_enum_%s" % n, "enum value named `%s`" % up, space.ir([space.enum("En", [up, "OTHER_ONE"], PKG), space.obj("HasEn", [space.field("e", R("En"))], PKG)]), cls="name:enum-value:" + up))
-        if thorough:
+        if thorough or n in ("Self", "Send", "Sync", "Unknown", "Option", "Box", "Error", "Client"):
             progs.append(Program("nm_union_%s" % n, "union type named `%s`" % n, space.ir([space.union(n, [space.field("a", S), space.field("b", space.lst(space.ref(n, PKG)))], PKG)]), cls="name:union-type:" + n))
             progs.append(Program("nm_enumt_%s" % n, "enum type named `%s`" % n, space.ir([space.enum(n, ["A", "B"], PKG), space.obj("H", [space.field("e", space.ref(n, PKG))], PKG)]), cls="name:enum-type:" + n))
             progs.append(Program("nm_svc_%s" % n, "service named `%s`" % n, space.ir([], [space.service(n, [space.endpoint("go", "GET", "/go", [])], PKG)]), cls="name:service:" + n))
